@@ -5,7 +5,7 @@ from .. import cases, oracles
 from . import _align_common as ac
 
 TITLE = "Built-in dissimilarities compute their documented formula in both forms"
-DECIDING = ["M-FORMULA", "M-COMPILED", "M-KERNEL-VIA-CONTINUUM", "M-SYMMETRY", "M-LABEL-ORDER", "M-OLDER-INSTANCE", "M-PRE-USE", "M-SHARED-COMPONENT", "M-KERNEL-CONCURRENT"]
+DECIDING = ["M-FORMULA", "M-COMPILED", "M-KERNEL-VIA-CONTINUUM", "M-SYMMETRY", "M-LABEL-ORDER", "M-OLDER-INSTANCE", "M-PRE-USE", "M-SHARED-COMPONENT", "M-KERNEL-CONCURRENT", "M-DELTA-TWIN"]
 LEVEL = "exploration"
 RULE = ("a case = one dissimilarity instance (every built-in class; delta_empty, alpha, beta from the documented value "
         "sets; labels supplied sorted or shuffled; 1-300 categories; precomputed matrices as float32, float64, integer or boolean "
@@ -14,7 +14,7 @@ RULE = ("a case = one dissimilarity instance (every built-in class; delta_empty,
         "each pair: d(), the compiled value through UnitaryAlignment(...).compute_disorder and through "
         "valid_alignments on a 2-annotator continuum, the documented formula, symmetry, non-negativity, zero on "
         "identical units; per instance: the same two names in a twin instance built with shuffled labels / extra "
-        "categories; histories: a categorical component that was used (d() called) before being handed to the combined "
+        "categories, and in a twin built with c * delta_empty (values must be c times larger); histories: a categorical component that was used (d() called) before being handed to the combined "
         "constructor, and the previous case's instance measured again after the current one was built (several instances "
         "alive at once), one component object shared by two combined dissimilarities with different delta_empty, one label-free instance computing candidate tables for continua with different category sets in 4 user threads at once. non-trivial = pair of different units; distinct by SHA-1 of (instance, pairs)")
 ASSUMPTIONS = [
@@ -246,6 +246,8 @@ def _measure_all(ctx, case, dissim, tag):
     twin = case.get("twin")
     if twin:
         check_twin(ctx, case, dissim, twin, delta)
+    if case.get("delta_twin") and not tag:
+        check_delta_twin(ctx, case, dissim, delta)
 
 
 class _Tagged:
@@ -305,6 +307,39 @@ def check_proportional(ctx, dspec, comp, points, delta):
             ctx.fail(f"{kind}:not-proportional-to-position-distance",
                      {"pair1": k_est[1:5], "k1": k_est[0], "pair2": [l1, l2, cv, dist], "k2": k, "form": form,
                       "labels_supplied": comp["cats"][:12], "p": (comp.get("p") or [])[:12]}, monitor="M-FORMULA")
+
+
+def check_delta_twin(ctx, case, dissim, delta):
+    """'categorical = matrix entry for the two category names * delta_empty': the same instance built with c * delta_empty
+    (everything else equal) gives c times the value, whatever the normalisation of the matrix."""
+    import copy
+    c = case["delta_twin"]
+    t = copy.deepcopy(case["dissim"])
+
+    def scale(d):
+        d["delta"] = d["delta"] * c
+        if d["kind"] == "combined":
+            if d.get("pos"):
+                d["pos"]["delta"] = d["pos"]["delta"] * c
+            if d.get("cat"):
+                scale(d["cat"])
+    scale(t)
+    try:
+        other = cases.build_dissim(t)
+    except Exception as e:
+        ctx.fail_exc(f"delta-twin-constructor-raises:{type(e).__name__}", e, monitor="M-DELTA-TWIN")
+        return
+    dspec = case["dissim"]
+    comp = cat_component(dspec)
+    kind = dspec["kind"] if dspec["kind"] != "combined" else "combined/" + comp["kind"]
+    for idx, (u1, u2) in enumerate(case["pairs"][:8]):
+        m1, m2 = measure(dissim, u1, u2, False), measure(other, u1, u2, False)
+        ctx.count("M-DELTA-TWIN")
+        for form in ("d", "compiled"):
+            if not tol(m1[form] * c, m2[form], delta * c):
+                ctx.fail(f"{kind}:value-does-not-scale-with-delta_empty", {"pair": [u1, u2], "form": form, "value": m1[form], "factor": c,
+                                                                            "value_with_scaled_delta_empty": m2[form]}, monitor="M-DELTA-TWIN")
+                return
 
 
 def check_twin(ctx, case, dissim, twin, delta):
@@ -449,6 +484,13 @@ def run(ctx):
                       "pos": None if rng.random() < 0.5 else {"delta": rng.choice(cases.DELTAS)}, "cat": comp})
     for d in rng.sample(cases.DELTAS, 3):
         block.append({"kind": "combined", "alpha": 1.0, "beta": rng.choice([1.0, 2.0]), "delta": d, "pos": None, "cat": None})
+    for kind in ("precomputed", "levenshtein", "ordinal", "numerical", "absolute", "positional"):     # (0) every class: values scale with delta_empty
+        dspec = cases.gen_dissim(rng, [kind])
+        labels = cases.dissim_labels(dspec) or cases.LABELS_SMALL
+        case = {"dissim": dspec, "pairs": gen_pairs(rng, labels, 10), "delta_twin": rng.choice([2.0, 0.5, 4.0])}
+        ctx.begin_case(case)
+        ctx.observe("class", "delta-twin-block/" + kind)
+        check_case(ctx, case)
     for dspec in block:
         labels = cases.dissim_labels(dspec) or cases.LABELS_SMALL + ["Noun", "10"]
         case = {"dissim": dspec, "pairs": gen_pairs(rng, labels, 14), "pre_use": True}
@@ -487,6 +529,8 @@ def run(ctx):
             tw = make_twin(rng, dspec)
             if tw:
                 case["twin"] = tw
+        if rng.random() < 0.5:
+            case["delta_twin"] = rng.choice([2.0, 0.5, 4.0, 3.0, 0.25])
         ctx.begin_case(case)
         comp = cat_component(dspec)
         ctx.observe("class", dspec["kind"] if dspec["kind"] != "combined" else "combined/" + comp["kind"])
